@@ -196,6 +196,8 @@ Proof.
   - exact (InvD_io_clear (hp h) k (how h) g HD).
   - exact (InvD_io_setitem (hp h) k (how h) g i v HD).
   - exact (InvD_io_delitem (hp h) k (how h) g i HD).
+  - exact (InvD_io_setslice (hp h) k (how h) g a b vs HD).
+  - exact (InvD_io_delslice (hp h) k (how h) g a b HD).
   - exact (InvD_io_reverse (hp h) k (how h) g HD).
   - exact (InvD_init_setitem (hp h) (how h) g key v HD).
   - exact (InvD_init_delitem (hp h) (how h) g key HD).
